@@ -10,6 +10,7 @@ import ZepidVerif.Model.Ipmw
 import ZepidVerif.Model.Ipcw
 import ZepidVerif.Model.Stochastic
 import ZepidVerif.Gen.Stoch
+import ZepidVerif.Gen.Ipcw
 namespace ZVD
 open ZV ZV.Std
 
@@ -136,14 +137,19 @@ def opIpcw (a : Args) : Except String String := do
   match Ipcw.prepLong (mkRecs ids ts ev) with
   | .error e => pure ("err " ++ showErr e)
   | .ok p =>
-    let base := s!"ok order={showList toString (p.rows.map (·.lab))} unc={showList showBool p.unc}"
+    -- the indicator column and the weights come from the definitions regenerated from the text of `IPCW.__init__`,
+    -- `regression_models` and `fit` (`Gen/Ipcw.lean`), run on the sorted frame
+    let unc := match Ipcw.maxTime (mkRecs ids ts ev) with
+      | some m => (Gen.ipcw_uncensored m p.rows).map (· == 1)
+      | none => []
+    let base := s!"ok order={showList toString (p.rows.map (·.lab))} unc={showList showBool unc}"
     match a.get? "num" with
     | none => pure base
     | some _ =>
       let num : Array F ← vals a "num"
       let den : Array F ← vals a "den"
       let lk := fun (arr : Array F) (i : Nat) => arr.getD i ((0 : Nat) : F)
-      pure (base ++ s!" w={showList sh (Ipcw.weights p.rows (lk num) (lk den))}")
+      pure (base ++ s!" w={showList sh (Gen.ipcw_weights p.rows (lk num) (lk den))}")
 
 /-- IPCW `_dataprep` -/
 def opIpcwFlat (a : Args) : Except String String := do
@@ -157,7 +163,10 @@ def opIpcwFlat (a : Args) : Except String String := do
     | _, _, _, _ => []
   match Ipcw.prepFlat (go 0 ids ts ti ev) with
   | .error e => pure ("err " ++ showErr e)
-  | .ok (ex, unc) =>
+  | .ok (ex, _) =>
+    let unc := match Ipcw.maxTime (ex.map (·.r)) with
+      | some mo => (Gen.ipcw_flat_uncensored mo (ex.map (·.r))).map (· == 1)
+      | none => []
     pure s!"ok lab={showList toString (ex.map (·.r.lab))} tenter={showList toString (ex.map (·.tenter))} tout={showList sh (ex.map (·.r.time))} delta={showList showBool (ex.map (·.r.event))} unc={showList showBool unc}"
 
 end
